@@ -31,8 +31,8 @@ class KDSemsegRandomCrop(KDStochasticTransform):
         return x, semseg
 
     def get_params(self, height, width):
-        top = int(self.rng.integers(max(0, height - self.size[0]) + 1, size=(1,)))
-        left = int(self.rng.integers(max(0, width - self.size[1]) + 1, size=(1,)))
+        top = int(self.rng.integers(max(0, height - self.size[0]) + 1, size=(1,))[0])
+        left = int(self.rng.integers(max(0, width - self.size[1]) + 1, size=(1,))[0])
         crop_height = min(height, self.size[0])
         crop_width = min(width, self.size[1])
         return top, left, crop_height, crop_width
